@@ -111,6 +111,14 @@ def check_group2(run, rule, F, crate, group, expect, only=None, what=None):
                 served.add(summ.fn_key(f))
                 run.note("%s is %s at %s" % (key, summ.fn_key(f), subst))
         if f is None:
+            m = re.match(r"^<([\w:]+)(<.*>)? as ->::(\w+)$", key)
+            priv = [a for a in crate.adts.values() if m and a.get("def") == m.group(1) and a.get("reachable") is False]
+            if priv:
+                # an inherent method of a type that code outside the crate cannot name is an implementation detail: renamed, merged or inlined,
+                # what it did is part of the summaries of the specified functions that used it (they inline it)
+                run.ok(rule, key, "helper method of the crate-private type %s is gone (renamed or inlined); judged through its callers" % m.group(1))
+                n += 1
+                continue
             run.bad(rule, key, "specified function not found in the analysed crate (public API or trait method renamed or removed?)")
             continue
         summ2.check(run, rule, f, want, F, what=what, renames=ren, hyps=invariants_for(f), key=key, root_subst=subst)
